@@ -402,6 +402,7 @@ type refRow struct {
 	wid     int
 	readers []int
 	cell    map[int]string // reader -> canonical answer; absent = owed
+	refused map[int]bool   // readers that were linked but did not accept the write (already closed)
 }
 
 type ref struct {
@@ -456,8 +457,13 @@ func joinCanon(cs []string) string {
 func (x *ref) flush() (out []string) {
 	for len(x.rows) > 0 {
 		row := x.rows[0]
+		// the join of what the ACCEPTING readers that are still linked answered; a reader that refused
+		// the write contributes nothing, and with no accepting reader left the response is `dropped`
 		var cs []string
 		for _, r := range row.readers {
+			if row.refused[r] {
+				continue
+			}
 			c, ok := row.cell[r]
 			if !ok {
 				return out
@@ -531,11 +537,11 @@ func (x *ref) apply(o op) (expectRet string, expect []string) {
 			return "n0", nil
 		}
 		n := 0
-		row := &refRow{wid: x.nextW, cell: map[int]string{}}
+		row := &refRow{wid: x.nextW, cell: map[int]string{}, refused: map[int]bool{}}
 		for _, r := range x.linked {
 			row.readers = append(row.readers, r)
 			if x.closed[r] {
-				row.cell[r] = "N"
+				row.refused[r] = true
 			} else {
 				n++
 			}
